@@ -581,3 +581,99 @@ Lemma check_T5 x : v6 x = true -> checks x x default_port.
 Proof.
   intros H. apply checks_intro; [exact (proj2 (T5 x 5222 H))|exact default_port_nonempty].
 Qed.
+
+(* ---- ensurePort applied twice (the SRV path: client.go applies it with the SRV port,
+   NewClientTransport again with 5222): the second application changes nothing, for
+   EVERY address and every two port numbers ---- *)
+Lemma last_index_app_absent c a b : has c b = false -> last_index c (a ++ b) = last_index c a.
+Proof.
+  intros Hb. induction a as [|x a IH]; cbn [app last_index].
+  - exact (last_index_absent c b Hb).
+  - rewrite IH. reflexivity.
+Qed.
+
+Lemma no_lbr_prefix_app a t :
+  has_prefix [c_lbr] a = false -> has_prefix [c_lbr] (a ++ c_colon :: t) = false.
+Proof. destruct a as [|x a]; intros H; [reflexivity|exact H]. Qed.
+
+Lemma ensure_port_idem a n m : ensure_port (ensure_port a n) m = ensure_port a n.
+Proof.
+  pose proof (itoa_inv n) as (Pc & Pl & Pr).
+  unfold ensure_port at 2 3.
+  destruct (has_prefix [c_lbr] a) eqn:Hp.
+  - destruct (last_index c_colon a <=? last_index c_rbr a) eqn:Ht.
+    + unfold ensure_port.
+      assert (Hp' : has_prefix [c_lbr] (a ++ c_colon :: itoa n) = true).
+      { destruct a as [|x a]; [discriminate|exact Hp]. }
+      rewrite Hp', (last_index_hit c_colon a (itoa n) Pc).
+      rewrite last_index_app_absent by (rewrite has_cons, Pr; reflexivity).
+      pose proof (last_index_bounds c_rbr a) as Hb.
+      destruct (len a <=? last_index c_rbr a) eqn:E; [apply Z.leb_le in E; lia|reflexivity].
+    + unfold ensure_port. rewrite Hp, Ht. reflexivity.
+  - destruct (count c_colon a) as [|[|k]] eqn:Hc.
+    + unfold ensure_port. rewrite (no_lbr_prefix_app a (itoa n) Hp).
+      rewrite count_app. cbn [count]. rewrite N.eqb_refl, Hc, (count_absent _ _ Pc). reflexivity.
+    + unfold ensure_port. rewrite Hp, Hc. reflexivity.
+    + apply ensure_bracketed_port; assumption.
+Qed.
+
+Lemma itoa_no_slashes n : has_prefix [c_slash; c_slash] (itoa n) = false.
+Proof.
+  destruct (Z_lt_le_dec n 0) as [H|H].
+  - unfold itoa. apply Z.ltb_lt in H. rewrite H. reflexivity.
+  - apply digits_no_slashes. exact (itoa_nonneg_digits n H).
+Qed.
+
+(* what is dialled when the address was first completed with another port n (SRV) *)
+Lemma dial_srv_name h n : name_or_v4 h = true -> dials (ensure_port h n) h (itoa n).
+Proof.
+  intros H. rewrite (proj1 (T1 h n H)).
+  exact (dial_T2 h (itoa n) H (itoa_port_ok n) (itoa_no_slashes n)).
+Qed.
+Lemma dial_srv_bare_v6 x n : v6 x = true -> dials (ensure_port x n) x (itoa n).
+Proof. intros H. rewrite (proj1 (T5 x n H)). exact (dial_T4 x (itoa n) H (itoa_port_ok n)). Qed.
+Lemma dial_srv_bracketed_v6 x n :
+  v6 x = true -> dials (ensure_port (c_lbr :: x ++ [c_rbr]) n) x (itoa n).
+Proof. intros H. rewrite (proj1 (T3 x n H)). exact (dial_T4 x (itoa n) H (itoa_port_ok n)). Qed.
+
+(* ---- "host:" / "[v6]:" - a separator with an EMPTY port: not one of the property's
+   forms (port_ok excludes it).  The transports keep it as it is (net.Dial then
+   resolves the empty port to 0), the certificate checker reads it as "no port" and
+   dials 5222: the two disagree. ---- *)
+Lemma index_present c s : (1 <= count c s)%nat -> 0 <= index c s.
+Proof.
+  induction s as [|x s IH]; cbn [count index]; [lia|].
+  destruct (N.eqb x c); [lia|]. intros H. cbn [Nat.add] in H. specialize (IH H).
+  destruct (index c s <? 0) eqn:E; [apply Z.ltb_lt in E; lia|lia].
+Qed.
+
+Lemma empty_port_name h : name_or_v4 h = true ->
+  client_transport (h ++ [c_colon]) = Tcp (h ++ [c_colon]) /\
+  component_transport (h ++ [c_colon]) = Tcp (h ++ [c_colon]) /\
+  split_host_port (h ++ [c_colon]) = SplitOk h [] /\
+  checker_params (h ++ [c_colon]) = Some (h ++ c_colon :: itoa 5222, h).
+Proof.
+  intros H. apply name_or_v4_inv in H as (_ & Hc & Hl & Hr).
+  assert (Es : scheme_prefixed (h ++ [c_colon]) = false) by (apply not_scheme_host_port; [exact Hc|reflexivity]).
+  assert (Ee : ensure_port (h ++ [c_colon]) 5222 = h ++ [c_colon]) by (apply ensure_host_port; auto).
+  assert (Ep : split_host_port (h ++ [c_colon]) = SplitOk h []) by (apply split_plain; auto).
+  unfold client_transport, component_transport, checker_params. rewrite Es, Ee, Ep.
+  repeat split. unfold join_host_port. rewrite (index_absent _ _ Hc). reflexivity.
+Qed.
+
+Lemma empty_port_bracketed x : v6 x = true ->
+  client_transport (c_lbr :: x ++ [c_rbr; c_colon]) = Tcp (c_lbr :: x ++ [c_rbr; c_colon]) /\
+  component_transport (c_lbr :: x ++ [c_rbr; c_colon]) = Tcp (c_lbr :: x ++ [c_rbr; c_colon]) /\
+  split_host_port (c_lbr :: x ++ [c_rbr; c_colon]) = SplitOk x [] /\
+  checker_params (c_lbr :: x ++ [c_rbr; c_colon]) = Some (c_lbr :: x ++ c_rbr :: c_colon :: itoa 5222, x).
+Proof.
+  intros H. apply v6_inv in H as (Hc & Xl & Xr).
+  assert (Ee : ensure_port (c_lbr :: x ++ [c_rbr; c_colon]) 5222 = c_lbr :: x ++ [c_rbr; c_colon])
+    by (apply (ensure_bracketed_port x [] 5222); reflexivity).
+  assert (Ep : split_host_port (c_lbr :: x ++ [c_rbr; c_colon]) = SplitOk x [])
+    by (apply (split_bracketed x []); auto).
+  unfold client_transport, component_transport, checker_params.
+  rewrite not_scheme_bracketed, Ee, Ep. repeat split.
+  unfold join_host_port. pose proof (index_present c_colon x ltac:(lia)) as Hi.
+  apply Z.leb_le in Hi. rewrite Hi. reflexivity.
+Qed.
